@@ -3,6 +3,7 @@ package props
 
 import (
 	"fmt"
+	"math/rand"
 	"runtime"
 	"sort"
 	"strings"
@@ -78,3 +79,5 @@ func tierPick(t core.Tier, quick, thorough int) int {
 }
 
 func q(s string) string { return fmt.Sprintf("%q", s) }
+
+func newRand(seed int64) *rand.Rand { return rand.New(rand.NewSource(seed)) }
